@@ -63,7 +63,8 @@ def decide (i : Input) : Decision :=
     let ops1 := if copy then (if i.createFails then [FsOp.unlinkTmp] else [.unlinkTmp, .createTmpFromStdout]) else []
     let rvA : Int := if copy && i.createFails then EXIT_BUILD_JOB_ERROR else EXIT_SUCCESS
     let st2 := i.tmpExists || (copy && !i.createFails)
-    let ops2 := if st2 then [FsOp.renameTmpToTarget] else [.unlinkTarget]
+    -- (repaired in /repo: when the output cannot be copied nothing is installed and the old target is NOT removed)
+    let ops2 := if rvA ≠ EXIT_SUCCESS then [] else if st2 then [FsOp.renameTmpToTarget] else [.unlinkTarget]
     let rvB : Int := if st2 && i.renameFails then EXIT_BUILD_JOB_ERROR else rvA
     if rvB = EXIT_SUCCESS then { ops := ops1 ++ ops2, rv := rvB, recordedOk := true }
     else { ops := ops1 ++ ops2 ++ [.unlinkTmp], rv := rvB, recordedOk := false }
